@@ -28,17 +28,23 @@ theorem itemsValues_itemOf (cs : List Entry) : itemsValues (cs.map itemOf) = cs.
     simp only [itemsValues, List.map_cons, List.flatMap_cons] at ih ⊢
     rw [ih]; rfl
 
-/-- The general statement: a payload whose walk ends in EOF and whose containers are
-well-formed is merged exactly like the set it carries. -/
+theorem importBits_eq (m : VMap) (d : Bytes) (clear : Bool) (w : Walk)
+    (hw : iterate d = .ok w) (hv : walkVerdict w = none) :
+    importBits m d clear = .ok (importItems clear m w.items) := by
+  unfold importBits importBitsSt
+  rw [hw]
+  simp only [hv]
+
+/-- The general statement: a payload that `ImportRoaringBits` accepts (its walk ends in EOF over
+consistent containers) is merged exactly like the set it carries. -/
 theorem importBits_spec (m : VMap) (hm : VMapOk m) (d : Bytes) (clear : Bool) (w : Walk)
-    (hw : iterate d = .ok w) (he : w.err = none) (hit : ∀ it ∈ w.items, ItemOk it)
+    (hw : iterate d = .ok w) (hv : walkVerdict w = none)
     (S : List Nat) (hS : Asc S) (hmem : ∀ x, x ∈ S ↔ x ∈ itemsValues w.items) :
     ∃ m' ch, importBits m d clear = .ok (m', ch) ∧ VMapOk m'
       ∧ m'.values = (if clear then Spec.diff m.values S else Spec.union m.values S)
       ∧ ch = Spec.delta m.values m'.values := by
-  unfold importBits
-  rw [hw]
-  simp only [he]
+  obtain ⟨_, hit⟩ := walkVerdict_none w hv
+  rw [importBits_eq m d clear w hw hv]
   refine ⟨_, _, rfl, ?_⟩
   cases clear with
   | false =>
@@ -77,5 +83,81 @@ theorem iterate_encodeP (b : Bitmap) (hb : BitmapWf b) (hsize : (encodeP b).leng
     exact ⟨by show Asc e'.c.values; rw [hv]; exact a1, by show ∀ v ∈ e'.c.values, v < 65536; rw [hv]; exact a2,
       by show e'.n = e'.c.values.length; rw [hv, hn, a3]⟩
   · rw [itemsValues_itemOf]; exact h3
+
+theorem ofValues_contWf (t : Nat) (vs : List Nat) (ha : Asc vs) (hb : ∀ v ∈ vs, v < 65536) :
+    ContWf vs.length (Cont.ofValues t vs) := by
+  unfold Cont.ofValues
+  split
+  · exact ⟨toRuns_ok vs ha hb, by rw [toRuns_values vs ha]⟩
+  · split
+    · exact ⟨ha, hb, rfl⟩
+    · refine ⟨packFrom_length _ _ _, ?_⟩
+      rw [bitmapValuesFrom_packFrom bitmapBytes 0 vs ha (fun v hv => ⟨Nat.zero_le _, by
+        have := hb v hv; simp only [bitmapBytes]; omega⟩)]
+
+theorem optimize_contWf (e e' : Entry) (he : EntryWf e) (h : e.optimize = some e') : ContWf e'.n e'.c := by
+  obtain ⟨hasc, hbound, hlen⟩ := he.c.values_ok
+  unfold Entry.optimize at h
+  split at h
+  · cases h
+  · simp only [] at h
+    split at h
+    · simp only [Option.some.injEq] at h; subst h; exact he.c
+    · simp only [Option.some.injEq] at h; subst h
+      simp only []
+      rw [← hlen]
+      exact ofValues_contWf _ _ hasc hbound
+
+theorem asc_strictAsc (l : List Nat) (h : Asc l) : strictAsc l = true := by
+  induction l with
+  | nil => rfl
+  | cons a r ih =>
+    cases r with
+    | nil => rfl
+    | cons b r' =>
+      have h' := List.pairwise_cons.mp h
+      simp only [strictAsc, Bool.and_eq_true, decide_eq_true_eq]
+      exact ⟨h'.1 b (by simp), ih h'.2⟩
+
+theorem runsOk_of (rs : List (Nat × Nat)) (h : RunsOk rs) : runsOk rs = true := by
+  induction rs with
+  | nil => rfl
+  | cons a r ih =>
+    have hs := List.pairwise_cons.mp h.sep
+    have ih' := ih ⟨hs.2, fun x hx => h.each x (by simp [hx])⟩
+    cases r with
+    | nil => simp only [runsOk, decide_eq_true_eq]; exact (h.each a (by simp)).1
+    | cons b r' =>
+      simp only [runsOk, Bool.and_eq_true, decide_eq_true_eq]
+      exact ⟨⟨(h.each a (by simp)).1, hs.1 b (by simp)⟩, ih'⟩
+
+theorem contWf_wf (n : Nat) (c : Cont) (h : ContWf n c) (hn : 0 < n) : c.wf n = true := by
+  cases c with
+  | array vs =>
+    simp only [Cont.wf, Bool.and_eq_true, beq_iff_eq, List.all_eq_true, decide_eq_true_eq]
+    exact ⟨⟨asc_strictAsc vs h.1, h.2.2⟩, h.2.1⟩
+  | bitmap bs =>
+    simp only [Cont.wf, Bool.and_eq_true, beq_iff_eq]
+    exact h
+  | run rs =>
+    simp only [Cont.wf, Bool.and_eq_true, beq_iff_eq, List.all_eq_true, decide_eq_true_eq, bne_iff_ne, ne_eq]
+    refine ⟨⟨⟨?_, runsOk_of rs h.1⟩, h.2⟩, fun r hr => (h.1.each r hr).2⟩
+    intro e
+    subst e
+    have := h.2
+    simp [runValues] at this
+    omega
+
+theorem walkVerdict_encodeP (b : Bitmap) (hb : BitmapWf b) :
+    walkVerdict ⟨b.optimize.cs.map itemOf, none⟩ = none := by
+  unfold walkVerdict
+  rw [if_pos]
+  apply List.all_eq_true.mpr
+  intro it hit
+  obtain ⟨e', he', rfl⟩ := List.mem_map.mp hit
+  obtain ⟨e, he, heo⟩ := List.mem_filterMap.mp he'
+  have hw := optimize_contWf e e' (hb.entries e he) heo
+  obtain ⟨h1, _, _, _⟩ := optimize_cs b.cs hb.entries hb.keys
+  exact contWf_wf _ _ hw (h1 e' he').2
 
 end PV.C04
